@@ -1064,3 +1064,123 @@ Lemma tid_child_only_refuted :
   filter (fun e => selected (Some [1%nat]) (e_task e))
          (events_of (fst (replay_raw (mkcfg false [4]) None tid_witness_tasks))).
 Proof. split; [vm_compute; reflexivity|]. vm_compute. intros H. discriminate H. Qed.
+
+(* ------------------------------------------------------------------ presentation passes *)
+(* print_time_unit is exact (and the identity on our encoding) below one millisecond *)
+Theorem fmt_time_exact d : d < 1000000 -> fmt_time d = d.
+Proof.
+  intros H. unfold fmt_time. destruct (d =? 0) eqn:E0; [lia|].
+  replace (d <? 9223372036854775808) with true by lia.
+  unfold time_limits. cbn [fmt_loop].
+  assert (Hd : d / 1000 < 1000) by (apply N.div_lt_upper_bound; lia).
+  replace (d / 1000 <? 1000) with true by lia.
+  replace (999 <? d / 1000) with false by lia.
+  pose proof (N.div_mod d 1000). lia.
+Qed.
+
+Definition fmt_ev (e : event) : event :=
+  mkev (e_open e) (e_task e) (e_indent e) (e_name e) (fmt_time (e_dur e)) (e_time e).
+
+Lemma fmt_time_0 : fmt_time 0 = 0. Proof. reflexivity. Qed.
+
+Theorem events_fmt ls : events_of (map fmt_line ls) = map fmt_ev (events_of ls).
+Proof.
+  unfold events_of. induction ls as [|l ls IH]; [reflexivity|]. cbn [map flat_map]. rewrite IH, map_app. f_equal.
+  unfold events_of_line, fmt_line. cbn [l_kind l_task l_indent l_name l_dur l_time].
+  destruct (l_kind l); reflexivity.
+Qed.
+
+(* --task-newline only inserts blank lines *)
+Definition not_blank (l : line) : bool := match l_kind l with KBlank => false | _ => true end.
+
+Theorem task_newline_only_blanks : forall ls prev,
+  forallb not_blank ls = true -> filter not_blank (task_newline prev ls) = ls.
+Proof.
+  induction ls as [|l ls IH]; intros prev H; [reflexivity|].
+  cbn [forallb] in H. apply andb_true_iff in H. destruct H as [Hl Hr].
+  cbn [task_newline]. unfold not_blank in Hl.
+  destruct (l_kind l) eqn:Ek; try discriminate;
+    try (cbn [filter]; unfold not_blank at 1; rewrite Ek; rewrite IH by assumption; reflexivity);
+    (destruct prev as [p|]; [destruct (Nat.eqb p (l_task l))|]; cbn [filter]; unfold not_blank at 1; cbn [blank l_kind];
+     try (unfold not_blank at 1); rewrite ?Ek; rewrite IH by assumption; reflexivity).
+Qed.
+
+Theorem task_newline_events : forall ls prev, events_of (task_newline prev ls) = events_of ls.
+Proof.
+  unfold events_of. induction ls as [|l ls IH]; intros prev; [reflexivity|].
+  cbn [task_newline].
+  destruct (l_kind l) eqn:Ek;
+    try (cbn [flat_map]; rewrite IH; reflexivity);
+    (destruct prev as [p|]; [destruct (Nat.eqb p (l_task l))|]; cbn [flat_map]; rewrite IH; reflexivity).
+Qed.
+
+(* -f: a field list only blanks out columns; kind, indentation and name are never affected *)
+Definition ev_view (f : fields) (e : event) : event :=
+  mkev (e_open e) (if fd_tid f then e_task e else O) (e_indent e) (e_name e)
+       (if fd_dur f then e_dur e else 0) (if fd_time f then e_time e else 0).
+
+Theorem fields_only_mask f ls : events_of (map (view_line f) ls) = map (ev_view f) (events_of ls).
+Proof.
+  unfold events_of. induction ls as [|l ls IH]; [reflexivity|]. cbn [map flat_map]. rewrite IH, map_app. f_equal.
+  unfold events_of_line, view_line.
+  destruct (l_kind l) eqn:Ek; cbn [l_kind l_task l_indent l_name l_dur l_time]; rewrite ?Ek; cbn [map]; unfold ev_view; cbn [e_open e_task e_indent e_name e_dur e_time];
+    try reflexivity; destruct (fd_dur f), (fd_time f); reflexivity.
+Qed.
+
+(* --column-view only adds a per-task offset: the checker's inverse recovers every line *)
+Lemma lookup_shift cols l n : lookup_col cols (l_task (shift l n)) = lookup_col cols (l_task l).
+Proof. reflexivity. Qed.
+
+Lemma uncolumn_shift off cols next l n rest :
+  not_warn l = true -> not_blank l = true ->
+  uncolumn off cols next (shift l n :: rest) =
+  match lookup_col cols (l_task l) with
+  | Some c => mkline (l_kind l) (l_task l) (l_indent l + n - c * off) (l_name l) (l_dur l) (l_addr l) (l_time l) (l_delta l) (l_elapsed l)
+                :: uncolumn off cols next rest
+  | None => mkline (l_kind l) (l_task l) (l_indent l + n - next * off) (l_name l) (l_dur l) (l_addr l) (l_time l) (l_delta l) (l_elapsed l)
+                :: uncolumn off ((l_task l, next) :: cols) (next + 1) rest
+  end.
+Proof.
+  unfold not_warn, not_blank. intros H1 H2. cbn [uncolumn]. unfold shift. cbn [l_kind l_task l_indent l_name l_dur l_addr l_time l_delta l_elapsed].
+  destruct (l_kind l); try discriminate; reflexivity.
+Qed.
+
+Theorem column_view_roundtrip off : forall ls cols next,
+  uncolumn off cols next (column_view off cols next ls) = ls.
+Proof.
+  induction ls as [|l ls IH]; intros cols next; [reflexivity|].
+  cbn [column_view].
+  destruct (l_kind l) eqn:Ek;
+    try (cbn [uncolumn]; rewrite Ek; rewrite IH; reflexivity);
+    (destruct (lookup_col cols (l_task l)) as [c|] eqn:El;
+     rewrite uncolumn_shift by (unfold not_warn, not_blank; rewrite Ek; reflexivity);
+     rewrite El, IH; f_equal; destruct l; cbn in *; f_equal; lia).
+Qed.
+
+(* ------------------------------------------------------------------ non-vacuity *)
+Definition witness_forest : list call := [Call 1 1000 1500 [Call 2 1100 1400 [Call 4 1200 1300 []]]].
+
+Example calls_exact_hypotheses_hold :
+  forallb wf_task tid_witness_tasks = true /\ selected None 0 = true /\
+  k_parent (nth 0 tid_witness_tasks (mktask None [])) = None /\
+  k_recs (nth 0 tid_witness_tasks (mktask None [])) = flat_forest 0 witness_forest ++ flat_tail 0 TEnd /\
+  Forall time_sorted (map k_recs tid_witness_tasks).
+Proof.
+  repeat split; try (vm_compute; reflexivity).
+  repeat constructor; vm_compute; discriminate.
+Qed.
+
+Example tid_selects_hypotheses_hold :
+  forallb wf_task tid_witness_tasks = true /\ parent_closed (selected (Some [0%nat])) tid_witness_tasks.
+Proof.
+  split; [vm_compute; reflexivity|]. intros i p Hs Hp. cbn in Hs.
+  destruct i as [|[|i]]; cbn in Hs, Hp; discriminate.
+Qed.
+
+Example fork_child_example :
+  map core_of (events_of (fst (replay_raw (mkcfg true [4]) None tid_witness_tasks))) =
+  [ (true, 0%nat, 0, 1, 0); (true, 0%nat, 1, 2, 0); (true, 0%nat, 2, 4, 0);
+    (false, 1%nat, 2, 0, 0);                       (* the child leaves fork() at its parent's depth *)
+    (true, 1%nat, 2, 3, 0); (false, 1%nat, 2, 0, 10); (false, 1%nat, 1, 0, 30);
+    (false, 0%nat, 2, 0, 100); (false, 0%nat, 1, 0, 300); (false, 0%nat, 0, 0, 500) ].
+Proof. vm_compute. reflexivity. Qed.
